@@ -1186,3 +1186,6 @@ fn test_type_deserialize() {
 fn test_size_of_lhs_value() {
     assert_eq!(std::mem::size_of::<LhsValue<'_>>(), 48);
 }
+
+#[cfg(kani)]
+pub(crate) mod verif_kani;
